@@ -3,11 +3,12 @@ import Pixman.Spec.MatrixQ
     fixed/float conversions, `pixman_f_transform_multiply/point/point_3d/bounds`): property theorems about
     the EXACT-RATIONAL model `Pixman/Model/MatrixQ.lean`.
 
-    Every theorem here is `_partial`: the model replaces each `double` operation by the exact rational
-    operation; IEEE-754 rounding (53-bit significands) is not modelled.  What the theorems establish is that
-    the ALGORITHM (adjugate / determinant form, range check, `floor (v * 65536 + 0.5)`) is right; how far
-    the library's doubles may stray from it is bounded a posteriori, per request, by the correspondence
-    check (checks/C11.py, harness/matrix.c `invert_bound`). -/
+    The theorems named `_partial` are about an idealisation: the model replaces each `double` operation by the exact
+    rational operation; IEEE-754 rounding (53-bit significands) is not modelled.  They establish that the ALGORITHM
+    (adjugate / determinant form, products, quotients) is right; how far the library's doubles may stray from it is
+    bounded a posteriori, per request, by the correspondence check (checks/C11.py, harness/matrix.c).
+    The theorems about the double -> 16.16 conversion (`entryToFixed*`, `toFixed*`, the round trips) are NOT partial:
+    since /repo 50296f6 that conversion performs no inexact operation on an in-range `double` (`Model/MatrixQ.entryToFixed`). -/
 namespace Pixman.Props.C11Float
 open Pixman.Matrix Pixman.MatrixQ
 
@@ -43,28 +44,33 @@ theorem fMultiply_eq_mulSpec_partial (l r : FT) : fMultiply l r = mulSpec l r :=
   refine ⟨?_, ?_, ?_, ?_, ?_, ?_, ?_, ?_, ?_⟩ <;> grind
 
 /-- one entry of `pixman_transform_from_pixman_f_transform`: FALSE iff outside `[-32767, 32767]` -/
-theorem entryToFixed_none_iff_partial (d : Rat) : entryToFixed d = none ↔ ¬ InRange d := by
+theorem entryToFixed_none_iff (d : Rat) : entryToFixed d = none ↔ ¬ InRange d := by
   unfold entryToFixed InRange
   by_cases h : d < -32767 ∨ d > 32767
   · simp only [h, if_true, true_iff]; grind
   · simp only [h, if_false, reduceCtorEq, false_iff, Classical.not_not]; grind
 
-/-- ... otherwise the stored value is a nearest 1/65536 (conversion error ≤ 1/2 unit) and fits `int32_t`
-    (the cast `(pixman_fixed_t)` of the C code is value-preserving) -/
-theorem entryToFixed_some_partial (d : Rat) (q : Int) (h : entryToFixed d = some q) :
+/-- ... otherwise the stored value is THE nearest 1/65536, ties up (conversion error ≤ 1/2 unit: `65536·d - 1/2 < q ≤
+    65536·d + 1/2`), and fits `int32_t` (the cast `(pixman_fixed_t)` of the C code is value-preserving) -/
+theorem entryToFixed_some (d : Rat) (q : Int) (h : entryToFixed d = some q) :
     InRange d ∧ NearestFixed q d ∧ Pixman.Spec.Fixed.Rep32 q := by
   unfold entryToFixed at h
   by_cases hr : d < -32767 ∨ d > 32767
   · simp [hr] at h
   · simp only [hr, if_false, Option.some.injEq] at h
-    have f1 := Rat.floor_le (d * 65536 + 1 / 2)
-    have f2 := Rat.lt_floor_add_one (d * 65536 + 1 / 2)
-    rw [h] at f1 f2
+    have f1 := Rat.floor_le (d * 65536)
+    have f2 := Rat.lt_floor_add_one (d * 65536)
     rw [Rat.intCast_add] at f2
+    simp only [Rat.intCast_one] at f2
     have r1 : -32767 ≤ d := by grind
     have r2 : d ≤ 32767 := by grind
-    refine ⟨⟨r1, r2⟩, ⟨by grind, by grind⟩, ?_⟩
-    -- q ≤ 32767·65536 + 1/2 and q > −32767·65536 − 1/2
+    have near : NearestFixed q d := by
+      unfold NearestFixed
+      split at h
+      · next hge => rw [← h, Rat.intCast_add]; simp only [Rat.intCast_one]; constructor <;> grind
+      · next hlt => rw [← h]; constructor <;> grind
+    refine ⟨⟨r1, r2⟩, near, ?_⟩
+    unfold NearestFixed at near
     have u1 : (q : Rat) < ((2147418113 : Int) : Rat) := by
       have : ((2147418113 : Int) : Rat) = 2147418113 := by simp
       grind
@@ -80,16 +86,16 @@ example : entryToFixed (-3 / 131072) = some (-1) := by decide +kernel  -- ... al
 example : entryToFixed (32767 + 1 / 65536) = none := by decide +kernel
 
 /-- `pixman_transform_from_pixman_f_transform`: TRUE iff every entry lies in `[-32767, 32767]` ("overflow ⇒ FALSE") -/
-theorem toFixed_isSome_iff_partial (m : FT) : (toFixed m).isSome = true ↔ FT.All InRange m := by
-  have e := fun d => entryToFixed_none_iff_partial d
+theorem toFixed_isSome_iff (m : FT) : (toFixed m).isSome = true ↔ FT.All InRange m := by
+  have e := fun d => entryToFixed_none_iff d
   unfold toFixed FT.All
   constructor
   · intro h
     split at h
     · next a b c d e' f g h' i h0 h1 h2 h3 h4 h5 h6 h7 h8 =>
-      exact ⟨(entryToFixed_some_partial _ _ h0).1, (entryToFixed_some_partial _ _ h1).1, (entryToFixed_some_partial _ _ h2).1,
-             (entryToFixed_some_partial _ _ h3).1, (entryToFixed_some_partial _ _ h4).1, (entryToFixed_some_partial _ _ h5).1,
-             (entryToFixed_some_partial _ _ h6).1, (entryToFixed_some_partial _ _ h7).1, (entryToFixed_some_partial _ _ h8).1⟩
+      exact ⟨(entryToFixed_some _ _ h0).1, (entryToFixed_some _ _ h1).1, (entryToFixed_some _ _ h2).1,
+             (entryToFixed_some _ _ h3).1, (entryToFixed_some _ _ h4).1, (entryToFixed_some _ _ h5).1,
+             (entryToFixed_some _ _ h6).1, (entryToFixed_some _ _ h7).1, (entryToFixed_some _ _ h8).1⟩
     · cases h
   · intro ⟨h0, h1, h2, h3, h4, h5, h6, h7, h8⟩
     have g : ∀ d, InRange d → ∃ q, entryToFixed d = some q := by
@@ -103,18 +109,18 @@ theorem toFixed_isSome_iff_partial (m : FT) : (toFixed m).isSome = true ↔ FT.A
     simp only [e0, e1, e2, e3, e4, e5, e6, e7, e8, Option.isSome_some]
 
 /-- ... and then every stored entry is a nearest 1/65536 of the rational entry and fits `int32_t` -/
-theorem toFixed_some_partial (m : FT) (t : Transform) (h : toFixed m = some t) :
+theorem toFixed_some (m : FT) (t : Transform) (h : toFixed m = some t) :
     Entrywise NearestFixed t m ∧ t.Rep := by
   unfold toFixed at h
   split at h
   · next a b c d e f g h' i h0 h1 h2 h3 h4 h5 h6 h7 h8 =>
     simp only [Option.some.injEq] at h
     subst h
-    have s0 := entryToFixed_some_partial _ _ h0; have s1 := entryToFixed_some_partial _ _ h1
-    have s2 := entryToFixed_some_partial _ _ h2; have s3 := entryToFixed_some_partial _ _ h3
-    have s4 := entryToFixed_some_partial _ _ h4; have s5 := entryToFixed_some_partial _ _ h5
-    have s6 := entryToFixed_some_partial _ _ h6; have s7 := entryToFixed_some_partial _ _ h7
-    have s8 := entryToFixed_some_partial _ _ h8
+    have s0 := entryToFixed_some _ _ h0; have s1 := entryToFixed_some _ _ h1
+    have s2 := entryToFixed_some _ _ h2; have s3 := entryToFixed_some _ _ h3
+    have s4 := entryToFixed_some _ _ h4; have s5 := entryToFixed_some _ _ h5
+    have s6 := entryToFixed_some _ _ h6; have s7 := entryToFixed_some _ _ h7
+    have s8 := entryToFixed_some _ _ h8
     exact ⟨⟨s0.2.1, s1.2.1, s2.2.1, s3.2.1, s4.2.1, s5.2.1, s6.2.1, s7.2.1, s8.2.1⟩,
            ⟨s0.2.2, s1.2.2, s2.2.2, s3.2.2, s4.2.2, s5.2.2, s6.2.2, s7.2.2, s8.2.2⟩⟩
   · cases h
@@ -148,12 +154,12 @@ theorem invert_some_partial (t r : Transform) (h : invert t = some r) :
   | none => rw [hf] at h; cases h
   | some d =>
     rw [hf] at h; simp only at h
-    refine ⟨?_, d, fInvert_inverse_partial _ _ hf, ?_, toFixed_some_partial _ _ h⟩
+    refine ⟨?_, d, fInvert_inverse_partial _ _ hf, ?_, toFixed_some _ _ h⟩
     · intro h0
       have := invert_singular_partial t h0
       unfold invert at this; rw [hf] at this; simp only at this
       rw [this] at h; cases h
-    · exact (toFixed_isSome_iff_partial d).mp (by rw [h]; rfl)
+    · exact (toFixed_isSome_iff d).mp (by rw [h]; rfl)
 
 /-- `pixman_transform_invert` returns FALSE exactly when the input is singular or an entry of the exact
     inverse lies outside `[-32767, 32767]` ("overflow ⇒ FALSE") -/
@@ -171,7 +177,7 @@ theorem invert_none_iff_partial (t : Transform) :
       intro h0
       have := (fInvert_none_iff_partial _).mpr ((detSpec_fromFixed_zero_iff_partial t).mpr h0)
       rw [this] at hf; cases hf
-    have key := toFixed_isSome_iff_partial d
+    have key := toFixed_isSome_iff d
     constructor
     · intro hn
       right
@@ -308,5 +314,143 @@ theorem fBounds_contains_corners_partial (t : FT) (b b' : BoxZ) (h : fBounds t b
 example : fPoint ⟨1, 0, 0, 0, 1, 0, 0, 0, 2⟩ ⟨3, 5, 1⟩ = some ⟨3 / 2, 5 / 2, 1⟩ := by decide +kernel
 example : fPoint ⟨1, 0, 0, 0, 1, 0, 1, 0, -1⟩ ⟨1, 7, 1⟩ = none := by decide +kernel
 example : fBounds ⟨1 / 2, 0, 1 / 4, 0, 3, 0, 0, 0, 1⟩ ⟨0, 0, 3, 1⟩ = some ⟨0, 0, 2, 3⟩ := by decide +kernel
+
+/-! ### the fixed/float round trips (`pixman_f_transform_from_pixman_transform` ∘/∘ `pixman_transform_from_pixman_f_transform`)
+
+Since 50296f6 the conversion from `double` contains no inexact operation (see `entryToFixed`), so these are statements
+about the library's function on every finite `double` (`entryFromDouble x = entryToFixed (toRat x)`), tied by the literal
+`f_from` / `f_to` correspondence. -/
+
+/-- on a finite `double` the conversion is the rational function of its exact value -/
+theorem entryFromDouble_finite (x : Pixman.Model.Binary64.F64)
+    (h1 : Pixman.Model.Binary64.isNaN x = false) (h2 : Pixman.Model.Binary64.isInf x = false) :
+    entryFromDouble x = (entryToFixed (Pixman.Model.Binary64.toRat x)).map some := by
+  unfold entryFromDouble
+  simp only [h1, h2, Bool.false_eq_true, if_false]
+  cases entryToFixed (Pixman.Model.Binary64.toRat x) <;> rfl
+
+/-- `from (to (t)) = t` entry by entry: a 16.16 value of magnitude at most 32767.0 survives the round trip through `double` -/
+theorem from_to_roundtrip (t : Int) (hr : -2147418112 ≤ t ∧ t ≤ 2147418112) : entryToFixed (fixedToRat t) = some t := by
+  unfold entryToFixed fixedToRat
+  have h1 : ((-2147418112 : Int) : Rat) ≤ (t : Rat) := Rat.intCast_le_intCast.mpr hr.1
+  have h2 : (t : Rat) ≤ ((2147418112 : Int) : Rat) := Rat.intCast_le_intCast.mpr hr.2
+  have e1 : ((-2147418112 : Int) : Rat) = -2147418112 := by simp
+  have e2 : ((2147418112 : Int) : Rat) = 2147418112 := by simp
+  rw [e1] at h1; rw [e2] at h2
+  have hin : ¬ ((t : Rat) / 65536 < -32767 ∨ (t : Rat) / 65536 > 32767) := by grind
+  have hx : (t : Rat) / 65536 * 65536 = (t : Rat) := by grind
+  simp only [hin, if_false, hx, Rat.floor_intCast, Option.some.injEq]
+  have : ¬ ((t : Rat) - (t : Rat) ≥ 1 / 2) := by grind
+  simp only [this, if_false]
+
+/-- ... and a 16.16 value beyond ±32767.0 (representable: up to ±32768.0) is REFUSED by the conversion back:
+    `pixman_transform_from_pixman_f_transform (pixman_f_transform_from_pixman_transform (t))` is FALSE for such a matrix
+    (the range check is `[-32767.0, 32767.0]`, not the range of `pixman_fixed_t`) -/
+theorem from_to_refused (t : Int) (hr : t < -2147418112 ∨ 2147418112 < t) : entryToFixed (fixedToRat t) = none := by
+  unfold entryToFixed fixedToRat
+  have hout : (t : Rat) / 65536 < -32767 ∨ (t : Rat) / 65536 > 32767 := by
+    rcases hr with h | h
+    · left
+      have : (t : Rat) < ((-2147418112 : Int) : Rat) := Rat.intCast_lt_intCast.mpr h
+      have e1 : ((-2147418112 : Int) : Rat) = -2147418112 := by simp
+      grind
+    · right
+      have : ((2147418112 : Int) : Rat) < (t : Rat) := Rat.intCast_lt_intCast.mpr h
+      have e2 : ((2147418112 : Int) : Rat) = 2147418112 := by simp
+      grind
+  simp only [hout, if_true]
+
+/-- the matrix-level round trip: TRUE with the same matrix when every entry is within ±32767.0 -/
+theorem toFixed_fromFixed (t : Transform)
+    (h : ∀ x ∈ [t.m00, t.m01, t.m02, t.m10, t.m11, t.m12, t.m20, t.m21, t.m22], -2147418112 ≤ x ∧ x ≤ 2147418112) :
+    toFixed (fromFixed t) = some t := by
+  have g : ∀ x, (-2147418112 ≤ x ∧ x ≤ 2147418112) → entryToFixed (fixedToRat x) = some x := from_to_roundtrip
+  simp only [List.mem_cons, List.mem_nil_iff, or_false, forall_eq_or_imp, forall_eq] at h
+  obtain ⟨h0, h1, h2, h3, h4, h5, h6, h7, h8⟩ := h
+  simp only [toFixed, fromFixed, g _ h0, g _ h1, g _ h2, g _ h3, g _ h4, g _ h5, g _ h6, g _ h7, g _ h8]
+
+/-- `to (from (v))` is within 2⁻¹⁷ of `v` (half a unit of 1/65536; nearest, ties up), with NO further slack:
+    `-2⁻¹⁷ < r/65536 - v ≤ 2⁻¹⁷` for every in-range `v` -/
+theorem to_from_within (v : Rat) (r : Int) (h : entryToFixed v = some r) :
+    InRange v ∧ -(1 / 131072) < fixedToRat r - v ∧ fixedToRat r - v ≤ 1 / 131072 := by
+  obtain ⟨hr, hn, _⟩ := entryToFixed_some v r h
+  unfold NearestFixed at hn
+  unfold fixedToRat
+  refine ⟨hr, ?_, ?_⟩ <;> grind
+
+-- non-vacuity on concrete `double`s (kernel evaluation of `Binary64.toRat` / `roundBits`)
+example : entryFromDouble 4530621225134718975 = some (some 0) := by decide +kernel   -- (1/2 - 2^-54)/65536: was 1 before 50296f6
+example : entryFromDouble 4530621225134718976 = some (some 1) := by decide +kernel   -- 0.5/65536: the tie goes up
+example : entryFromDouble 13753993261989494784 = some (some 0) := by decide +kernel  -- -0.5/65536: the tie goes up
+example : entryFromDouble (fixedToDoubleBits (-98304)) = some (some (-98304)) := by decide +kernel
+example : entryFromDouble (fixedToDoubleBits 2147450880) = none := by decide +kernel   -- 32767.5 is refused
+example : fixedToDoubleBits (-98304) = 0xbff8000000000000 := by decide +kernel         -- -1.5
+
+/-! ### pixman_f_transform_scale / rotate / translate -/
+
+theorem mulSpec_assoc (a b c : FT) : mulSpec (mulSpec a b) c = mulSpec a (mulSpec b c) := by
+  simp only [mulSpec, FT.mk.injEq]
+  refine ⟨?_, ?_, ?_, ?_, ?_, ?_, ?_, ?_, ?_⟩ <;> grind
+theorem mulSpec_id_left (a : FT) : mulSpec identity a = a := by
+  cases a; simp only [mulSpec, identity, FT.mk.injEq]
+  refine ⟨?_, ?_, ?_, ?_, ?_, ?_, ?_, ?_, ?_⟩ <;> grind
+theorem mulSpec_id_right (a : FT) : mulSpec a identity = a := by
+  cases a; simp only [mulSpec, identity, FT.mk.injEq]
+  refine ⟨?_, ?_, ?_, ?_, ?_, ?_, ?_, ?_, ?_⟩ <;> grind
+
+/-- the purpose of the forward/reverse pair: if `reverse` is the inverse of `forward` and `tr` the inverse of `tf`,
+    then after `forward := tf·forward`, `reverse := reverse·tr` they are still inverse to each other -/
+theorem pair_stays_inverse_partial (f r tf tr : FT) (h : IsInverse f r) (ht : IsInverse tf tr) :
+    IsInverse (fMultiply tf f) (fMultiply r tr) := by
+  rw [fMultiply_eq_mulSpec_partial, fMultiply_eq_mulSpec_partial]
+  unfold IsInverse at *
+  constructor
+  · rw [mulSpec_assoc, ← mulSpec_assoc f r tr, h.1, mulSpec_id_left, ht.1]
+  · rw [mulSpec_assoc, ← mulSpec_assoc tr tf f, ht.2, mulSpec_id_left, h.2]
+
+/-- `pixman_f_transform_scale`: FALSE (nothing stored) iff a factor is zero; otherwise `forward := S(sx,sy)·forward`,
+    `reverse := reverse·S(1/sx,1/sy)`, and the two operand matrices are exact inverses -/
+theorem fScale_spec_partial (fwd rev : Option FT) (sx sy : Rat) :
+    ((sx = 0 ∨ sy = 0) → fScale fwd rev sx sy = (false, fwd, rev)) ∧
+    (¬ (sx = 0 ∨ sy = 0) →
+      fScale fwd rev sx sy = (true, fwd.map (mulSpec (fInitScale sx sy)), rev.map (fun r => mulSpec r (fInitScale (1 / sx) (1 / sy)))) ∧
+      IsInverse (fInitScale sx sy) (fInitScale (1 / sx) (1 / sy))) := by
+  constructor
+  · intro h; simp only [fScale, h, if_true]
+  · intro h
+    refine ⟨?_, ?_⟩
+    · simp only [fScale, h, if_false, fApplyPair, fMultiply_eq_mulSpec_partial]
+    · have h1 : sx ≠ 0 := fun e => h (Or.inl e)
+      have h2 : sy ≠ 0 := fun e => h (Or.inr e)
+      simp only [IsInverse, mulSpec, fInitScale, identity, FT.mk.injEq]
+      refine ⟨⟨?_, ?_, ?_, ?_, ?_, ?_, ?_, ?_, ?_⟩, ⟨?_, ?_, ?_, ?_, ?_, ?_, ?_, ?_, ?_⟩⟩ <;> grind
+
+/-- `pixman_f_transform_translate`: always TRUE; `forward := T(tx,ty)·forward`, `reverse := reverse·T(-tx,-ty)`,
+    exact inverses -/
+theorem fTranslate_spec_partial (fwd rev : Option FT) (tx ty : Rat) :
+    fTranslate fwd rev tx ty = (true, fwd.map (mulSpec (fInitTranslate tx ty)), rev.map (fun r => mulSpec r (fInitTranslate (-tx) (-ty)))) ∧
+    IsInverse (fInitTranslate tx ty) (fInitTranslate (-tx) (-ty)) := by
+  refine ⟨?_, ?_⟩
+  · simp only [fTranslate, fApplyPair, fMultiply_eq_mulSpec_partial]
+  · simp only [IsInverse, mulSpec, fInitTranslate, identity, FT.mk.injEq]
+    refine ⟨⟨?_, ?_, ?_, ?_, ?_, ?_, ?_, ?_, ?_⟩, ⟨?_, ?_, ?_, ?_, ?_, ?_, ?_, ?_, ?_⟩⟩ <;> grind
+
+/-- `pixman_f_transform_rotate`: always TRUE; `forward := R(c,s)·forward`, `reverse := reverse·R(c,-s)`; the operand
+    matrices multiply to `diag (c²+s², c²+s², 1)`: exact inverses iff `(c, s)` is a unit vector (the function does not check) -/
+theorem fRotate_spec_partial (fwd rev : Option FT) (c s : Rat) :
+    fRotate fwd rev c s = (true, fwd.map (mulSpec (fInitRotate c s)), rev.map (fun r => mulSpec r (fInitRotate c (-s)))) ∧
+    mulSpec (fInitRotate c s) (fInitRotate c (-s)) = ⟨c * c + s * s, 0, 0, 0, c * c + s * s, 0, 0, 0, 1⟩ ∧
+    (c * c + s * s = 1 → IsInverse (fInitRotate c s) (fInitRotate c (-s))) := by
+  refine ⟨?_, ?_, ?_⟩
+  · simp only [fRotate, fApplyPair, fMultiply_eq_mulSpec_partial]
+  · simp only [mulSpec, fInitRotate, FT.mk.injEq]
+    refine ⟨?_, ?_, ?_, ?_, ?_, ?_, ?_, ?_, ?_⟩ <;> grind
+  · intro h
+    simp only [IsInverse, mulSpec, fInitRotate, identity, FT.mk.injEq]
+    refine ⟨⟨?_, ?_, ?_, ?_, ?_, ?_, ?_, ?_, ?_⟩, ⟨?_, ?_, ?_, ?_, ?_, ?_, ?_, ?_, ?_⟩⟩ <;> grind
+
+example : fScale (some identity) (some identity) 2 (1 / 4) = (true, some ⟨2, 0, 0, 0, 1 / 4, 0, 0, 0, 1⟩, some ⟨1 / 2, 0, 0, 0, 4, 0, 0, 0, 1⟩) := by decide +kernel
+example : fScale (some identity) none 0 1 = (false, some identity, none) := by decide +kernel
+example : fRotate (some identity) none (3 / 5) (4 / 5) = (true, some ⟨3 / 5, -4 / 5, 0, 4 / 5, 3 / 5, 0, 0, 0, 1⟩, none) := by decide +kernel
 
 end Pixman.Props.C11Float
